@@ -468,4 +468,57 @@ func (g *gen) sessClose() {
 		}
 	}
 	g.p("Definition sc_setclosedeadline_locked : bool := %v.\n", locked)
+
+	// SetCloseDeadline REPLACES the input context: every context it creates
+	// (context.With...) has context.Background() as its parent — never the
+	// context it replaces —, the previous cancel function is saved and called,
+	// and the zero time is treated as "no deadline".
+	fresh, nctx, savesOld, callsOld, zero := true, 0, false, false, false
+	for _, fd := range fds {
+		if scFuncName(fd) != "Session.SetCloseDeadline" {
+			continue
+		}
+		oldName := ""
+		ast.Inspect(fd.Body, func(m ast.Node) bool {
+			switch x := m.(type) {
+			case *ast.AssignStmt:
+				for i, r := range x.Rhs {
+					if c := scSelChain(r); c != nil && scEndsWith(c, "in", "cancel") && i < len(x.Lhs) {
+						if id, is := x.Lhs[i].(*ast.Ident); is {
+							oldName, savesOld = id.Name, true
+						}
+					}
+				}
+			case *ast.CallExpr:
+				c := scSelChain(x.Fun)
+				if c == nil {
+					return true
+				}
+				if len(c) == 2 && c[0] == "context" && len(c[1]) > 4 && c[1][:4] == "With" {
+					nctx++
+					ok := false
+					if len(x.Args) > 0 {
+						if pc, is := x.Args[0].(*ast.CallExpr); is {
+							if pcn := scSelChain(pc.Fun); pcn != nil && len(pcn) == 2 && pcn[0] == "context" && pcn[1] == "Background" {
+								ok = true
+							}
+						}
+					}
+					if !ok {
+						fresh = false
+					}
+				}
+				if len(c) == 1 && oldName != "" && c[0] == oldName {
+					callsOld = true
+				}
+				if c[len(c)-1] == "IsZero" {
+					zero = true
+				}
+			}
+			return true
+		})
+	}
+	g.p("Definition sc_setclosedeadline_fresh_context : bool := %v.\n", fresh && nctx > 0)
+	g.p("Definition sc_setclosedeadline_cancels_previous : bool := %v.\n", savesOld && callsOld)
+	g.p("Definition sc_setclosedeadline_zero_is_no_deadline : bool := %v.\n", zero)
 }
